@@ -23,6 +23,7 @@ from pycoin.coins.SolutionChecker import ScriptError
 from pycoin.satoshi import errno as ERRNO
 from pycoin.ecdsa.secp256k1 import secp256k1_generator as G
 
+from props import c03x_gen as X   # multi-input transactions, P2WPKH rows of the pipeline table (generators only)
 from props import c03m as M   # model side: Lean model of pycoin's own VM vs the real VM (ops prefixed `vm_`, error codes compared)
 
 MANIFEST = {
@@ -1854,6 +1855,9 @@ def _emit_cases(cases, emit, ctx):
     S.resolve(cases)
     S.cross_check_oracle()
     ctx.extra_cov["sig_oracle_answers_recomputed_in_lean"] = {"answers": S.XCHECK_DONE[0], "true": S.XCHECK_DONE[1]}
+    ctx.extra_cov["sig_oracle_digests"] = {"computed_by_reference_sighashlib": S.REF_STATS[0], "sampled_beside_pycoin": S.REF_STATS[1] + S.REF_STATS[2],
+                                           "pycoin_same": S.REF_STATS[1], "pycoin_different_or_raised": S.REF_STATS[2],
+                                           "note": "informational: the verdict uses the reference digest only; agreement of pycoin's digest is property C04"}
     for c in cases:
         op = c.line()
         if op in CASES:
@@ -1908,6 +1912,8 @@ def gen(ctx, emit):
     cases: list = regression_cases()
     table_cases(cases, ctx.thorough)
     pipeline_table(cases, ctx.thorough)
+    X.p2wpkh_table(cases, ctx.thorough)
+    X.multi_table(cases, ctx.thorough)
     sig_table(cases, ctx.thorough)
     vm_emit = lambda op: emit(op, "vm:ms-opcount")
     ms_opcount_cases(cases, vm_emit)
@@ -1959,6 +1965,7 @@ def gen(ctx, emit):
     batch(ctx.n(22000, 480000), random_evals)
     batch(ctx.n(6000, 100000), lambda k, cs: pipeline_scenarios(rng, k, cs))
     batch(ctx.n(1500, 40000), lambda k, cs: sig_scenarios(rng, k, cs))
+    batch(ctx.n(150, 8000), lambda k, cs: X.multi_scenarios(rng, k, cs))   # k transactions, every input index of each validated
     # anchored line coverage on a sample (every k-th case, all regression cases)
     allops = list(CASES)
     step = max(1, len(allops) // ctx.n(3000, 12000))
